@@ -61,6 +61,71 @@ def is_det(argv):
         except ValueError: return True
     return True
 
+# Commands handed to the leader (H lines) reach the log in their absolute form (internal.AbsoluteExpiryForm, Coq:
+# Model/AbsForm.v): a relative expiry is deterministic when the deadline it denotes on the leader lies after every clock
+# in play.  No node's clock passes CLOCK_MAX in a generated script (start <= NOW + 100000, advances < 400000 in all).
+CLOCK_MAX = NOW + 500000
+REL_S7 = ["3000", "86400", "2600000000", "+7200"]
+REL_MS7 = ["3000000", "86400000", "2600000000000"]
+MAX_REL_S, MAX_REL_MS = 9223372036, 9223372036854      # beyond: time.Duration overflows (KF-C04-duration-overflow), not rewritten
+
+def rel_kind(argv):
+    """a command with a relative expiry (shape only)"""
+    if len(argv) < 3: return False
+    w = argv[0].upper(); up = [a.upper() for a in argv]
+    if w in ("EXPIRE", "PEXPIRE"): return True
+    if w == "SET": return "EX" in up[3:] or "PX" in up[3:]
+    if w == "GETEX": return len(argv) > 3 and up[2] in ("EX", "PX")
+    return False
+
+def is_det_h(argv):
+    """the Python twin of entry_det_b CLOCK_MAX (absolute_form now argv) for now >= NOW: a command handed to the leader"""
+    if not argv: return True
+    w = argv[0].upper(); up = [a.upper() for a in argv]
+    if w in ("SPOP", "SRANDMEMBER", "TTL", "PTTL"): return False
+    def rel_ok(v, milli):
+        try: n = int(v)
+        except ValueError: return True          # refused by the handler on every node alike
+        if abs(n) > (MAX_REL_MS if milli else MAX_REL_S): return False
+        return NOW + n * (1 if milli else 1000) >= CLOCK_MAX
+    if w in ("EXPIRE", "PEXPIRE"):
+        return rel_ok(argv[2], w == "PEXPIRE") if len(argv) > 2 else True
+    if w == "GETEX" and len(argv) > 3 and up[2] in ("EX", "PX"):
+        return rel_ok(argv[3], up[2] == "PX")
+    if w == "SET":
+        for i in range(3, len(argv) - 1):
+            if up[i] in ("EX", "PX") and not rel_ok(argv[i + 1], up[i] == "PX"): return False
+        return is_det([a for i, a in enumerate(argv) if not (up[i] in ("EX", "PX") and i >= 3)])
+    return is_det(argv)
+
+REL_CMDS = [["SET", "K", "v", "EX", "S"], ["SET", "K", "v", "PX", "M"], ["SET", "K", "7", "NX", "EX", "S"], ["SET", "K", "v", "GET", "px", "M"],
+            ["EXPIRE", "K", "S"], ["EXPIRE", "K", "S", "NX"], ["EXPIRE", "K", "S", "GT"], ["expire", "K", "S", "lt"], ["PEXPIRE", "K", "M"],
+            ["PEXPIRE", "K", "M", "XX"], ["GETEX", "K", "EX", "S"], ["GETEX", "K", "PX", "M"], ["getex", "K", "px", "M"],
+            ["SET", "K", "v"], ["SET", "K", "12"], ["RPUSH", "K", "x"]]
+
+def rand_rel_cmd(rng):
+    return [rng.choice(gen_mixed.KEYS) if a == "K" else rng.choice(REL_S7) if a == "S" else rng.choice(REL_MS7) if a == "M" else a
+            for a in rng.choice(REL_CMDS)]
+
+def make_det_h(rng, argv):
+    """turn a generated command into one that is deterministic when handed to the leader, keeping relative expiries relative"""
+    argv = ascii_only(argv)
+    if is_det_h(argv): return argv
+    w = argv[0].upper(); up = [a.upper() for a in argv]
+    if w == "EXPIRE" and len(argv) > 2: return argv[:2] + [rng.choice(REL_S7)] + argv[3:]
+    if w == "PEXPIRE" and len(argv) > 2: return argv[:2] + [rng.choice(REL_MS7)] + argv[3:]
+    if w == "GETEX" and len(argv) > 3 and up[2] in ("EX", "PX"):
+        return argv[:3] + [rng.choice(REL_S7 if up[2] == "EX" else REL_MS7)]
+    if w == "SET":
+        out = argv[:3]; i = 3
+        while i < len(argv):
+            if up[i] == "EX" and i + 1 < len(argv): out += [argv[i], rng.choice(REL_S7)]; i += 2
+            elif up[i] == "PX" and i + 1 < len(argv): out += [argv[i], rng.choice(REL_MS7)]; i += 2
+            elif up[i] in ("EXAT", "PXAT") and i + 1 < len(argv): out += ["PXAT", str(FAR + rng.randint(0, 3000))]; i += 2
+            else: out.append(argv[i]); i += 1
+        if is_det_h(out): return out
+    return make_det(rng, argv)
+
 def ascii_only(argv):
     # the log entry is JSON: bytes that are not valid UTF-8 do not survive it (recorded finding); keep to ASCII
     return [a if all(ord(ch) < 0x80 for ch in a) else "bin" for a in argv]
@@ -109,7 +174,11 @@ def rand_entry(rng, s, det):
         s.raw("A %d %d" % (rng.randrange(int(s.cfg["nodes"])), rng.choice([1, 20, 1500, 5001])), ["advance"])
     else:
         argv = gen_mixed.rand_cmd(rng, inplace_ok=True)
-        L(s, db, make_det(rng, argv) if det else ascii_only(argv))
+        if not det and (rel_kind(argv) or (argv and argv[0].upper() in ("TTL", "PTTL"))):
+            # the leader never puts such an entry into the log: it is handed to the leader instead
+            H(s, int(s.cfg["leader"]), db, ascii_only(argv) if rel_kind(argv) else ["PERSIST", argv[1] if len(argv) > 1 else "a"])
+        else:
+            L(s, db, make_det(rng, argv) if det else ascii_only(argv))
 
 def det_log(rng, sid, length):
     s = new_script(sid, "det")
@@ -120,9 +189,17 @@ def det_log(rng, sid, length):
     return s
 
 def nondet_log(rng, sid, length):
+    """no argument is repaired: randomised commands go into the log as they are (known finding); a command with a relative
+    expiry is handed to the leader, which logs its absolute form: what still differs between nodes is a deadline that
+    falls due on one node before another applies a later entry (known finding)"""
     s = new_script(sid, "nondet")
     for _ in range(rng.randint(3, length)):
-        rand_entry(rng, s, False)
+        if rng.random() < 0.7:
+            rand_entry(rng, s, False)
+            continue
+        argv = ascii_only(gen_mixed.rand_cmd(rng, inplace_ok=True)) if rng.random() < 0.5 else rand_rel_cmd(rng)
+        if argv and argv[0].upper() in ("TTL", "PTTL"): argv = ["PERSIST", argv[1] if len(argv) > 1 else "a"]
+        H(s, 0, rng.choice(DBS), argv)
     s.raw("G", ["digest"])
     return s
 
@@ -205,7 +282,9 @@ def handle_log(rng, sid, length):
     for _ in range(rng.randint(3, length)):
         node = rng.randrange(nodes)
         db = rng.choice(DBS)
-        argv = make_det(rng, gen_mixed.rand_cmd(rng, inplace_ok=True))
+        if rng.random() < 0.2:
+            s.raw("A %d %d" % (rng.randrange(nodes), rng.choice([1, 20, 1500, 5001])), ["advance"])
+        argv = make_det_h(rng, rand_rel_cmd(rng) if rng.random() < 0.3 else gen_mixed.rand_cmd(rng, inplace_ok=True))
         s.raw("G", ["digest"])
         H(s, node, db, argv)
         s.raw("G", ["digest"])
@@ -375,8 +454,17 @@ class C07(PropertyCheck):
         return {"impl_trace": im.get(c.id), "verdict": v} if v else None
 
     def in_known_trigger(self, script):
-        if script.cfg.get("kind") == "nondet" and any(not is_det(argv_of(l)) for l in script.lines if l[0] in "LH"):
-            return "KF-C07-commands-not-effects"
+        if script.cfg.get("kind") != "nondet":
+            return None
+        rnd = clock = False
+        for l in script.lines:
+            if l[0] not in "LH": continue
+            a = argv_of(l)
+            if not (is_det(a) if l[0] == "L" else is_det_h(a)):
+                if a[0].upper() in ("SPOP", "SRANDMEMBER"): rnd = True
+                else: clock = True
+        if rnd: return "KF-C07-commands-not-effects"
+        if clock: return "KF-C07-deadline-passes-during-replication"
         return None
 
     def replay_known(self, kf):
@@ -403,7 +491,8 @@ class C07(PropertyCheck):
                 "feeds the same entries to every node; the thorough tier observes a real 3-node cluster)",
                 "memberlist: a forwarded message reaches the leader's delegate (NotifyMsg) as sent; delivery count and order are not modelled",
                 "determinism is proved below a horizon T: logs passing entry_det_b T, node clocks <= T (no deadline falls due during replication); "
-                "relative expiries, SPOP and deadlines crossed during replication are refuted witnesses / known findings",
+                "the leader puts relative expiries into the log in their absolute form at its own clock, read once per entry; SPOP and "
+                "deadlines crossed during replication are refuted witnesses / known findings",
                 "functional extensionality (Coq.Logic.FunctionalExtensionality) is used, as in Proofs/ProgLemmas.v",
                 "JSON carries the log entries: arguments that are not valid UTF-8 are excluded from generation (recorded finding)"]
 
